@@ -10,9 +10,9 @@ one() {
   wt=/tmp/wt_matrix_$id
   git -C /repo worktree add --detach $wt HEAD >/dev/null 2>&1 || { echo "$id: cannot create worktree"; return; }
   if git -C $wt apply /verif/seeded/$id/patch.diff 2>/dev/null; then
-    (cd /verif && FLOWDYN_REPO=$wt ./check $prop --tier quick 2>&1 | grep "VIOLATION\|quick:\|MACHINERY" | sed 's/replay=[^ ]*//' | cut -c1-200 | sort | uniq | head -6) > /verif/seeded/$id/final_check.log
-    n=$(grep -c VIOLATION /verif/seeded/$id/final_check.log)
-    echo "$id: $prop violations-lines=$n $(grep -c MACHINERY /verif/seeded/$id/final_check.log | sed 's/^0$//;s/^[1-9].*/MACHINERY-FAILURE/')"
+    (cd /verif && FLOWDYN_REPO=$wt ./check $prop --tier quick 2>&1 | grep "VIOLATION\|quick:\|MACHINERY" | sed 's/replay=[^ ]*//' | cut -c1-200 | sort | uniq | head -6) > /verif/seeded/$id/${SEED_MATRIX_OUT:-final_check.log}
+    n=$(grep -c VIOLATION /verif/seeded/$id/${SEED_MATRIX_OUT:-final_check.log})
+    echo "$id: $prop violations-lines=$n $(grep -c MACHINERY /verif/seeded/$id/${SEED_MATRIX_OUT:-final_check.log} | sed 's/^0$//;s/^[1-9].*/MACHINERY-FAILURE/')"
   else
     echo "$id: patch does not apply to HEAD" | tee /verif/seeded/$id/final_check.log
   fi
